@@ -471,7 +471,7 @@ pub fn run(ctx: &Ctx) -> Report {
     // value, not about a guess on the way (directed; the unique fixed point is reached in three passes). Width 8 / 4,
     // data directive and typed argument, just inside and just outside.
     {
-        let head = "#ruledef\n{\n    jb {a} => { assert(a < 6), 0xa @ a`4 }\n    jb {a} => 0xb0 @ a`8\n    t8 {x: u8} => 0x55 @ x\n    s8 {x: s8} => 0x66 @ x\n    ti {i: imm} => 0x77 @ i\n}\n#subruledef imm\n{\n    #{v: u8} => v\n}\n";
+        let head = "#ruledef\n{\n    jb {a} => { assert(a < 6), 0xa @ a`4 }\n    jb {a} => 0xb0 @ a`8\n    t8 {x: u8} => 0x55 @ x\n    s8 {x: s8} => 0x66 @ x\n    ti {i: imm} => 0x77 @ i\n    n8 {x: u8} => 0x99\n    ni {i: imm} => 0x88\n    nb {x: s8} => { y = 1, 0x44 }\n}\n#subruledef imm\n{\n    #{v: u8} => v\n}\n";
         // B - A is 2 in the first passes and 1 in the end
         let cases: Vec<(&str, Option<Vec<u8>>)> = vec![
             ("#d8 254 + (B - A)", Some(vec![0xff])),
@@ -492,6 +492,18 @@ pub fn run(ctx: &Ctx) -> Report {
             ("ti #(256 - (B - A))", Some(vec![0x77, 0xff])),
             ("ti #(254 + (B - A))", Some(vec![0x77, 0xff])),
             ("ti #(255 + (B - A))", None),
+            // ... and with a rule body that never reads the typed parameter (directly, through a sub-rule, in a block)
+            ("n8 257 - (B - A)", None),
+            ("n8 256 - (B - A)", Some(vec![0x99])),
+            ("n8 254 + (B - A)", Some(vec![0x99])),
+            ("n8 255 + (B - A)", None),
+            ("ni #(257 - (B - A))", None),
+            ("ni #(256 - (B - A))", Some(vec![0x88])),
+            ("ni #(255 + (B - A))", None),
+            ("nb (A - B) - 127", Some(vec![0x44])),
+            ("nb (A - B) - 128", None),
+            ("nb 129 - (B - A)", None),
+            ("nb 128 - (B - A)", Some(vec![0x44])),
         ];
         let mut loc = Local::new();
         for (line, want) in &cases {
